@@ -384,6 +384,29 @@ DbgProgs2(size) ==
               ELSE [i \in 1..Len(base) |-> [e |-> base[i], envid |-> "E0", style |-> sty[(i % Len(sty)) + 1]]]
   IN pick
 
+(* ------------------------------------------------------------------ C14: programs run concurrently (env E1) *)
+\* monomorphic and polymorphic calls, lazy functions, literals; every program reads n / s / xs, which differ per goroutine
+ConcProgs == <<
+    Add(ECall(N_len, <<Var(N_xs)>>), Var(N_n)),
+    Add(T(1, Var(N_n)), T(2, Mul(Var(N_n), Var(N_n)))),
+    ECall(N_lif, <<Gt(Var(N_n), EInt(2)), Add(Var(N_s), S(<<97>>)), Add(S(<<98>>), Var(N_s))>>),
+    ESub(ECall(N_id, <<Var(N_xs)>>), EInt(0)),
+    EMem(ECall(N_pick, <<EObj(<<EFld(N_a, Var(N_n)), EFld(N_b, Var(N_s))>>), EObj(<<EFld(N_b, Var(N_s)), EFld(N_a, EInt(7))>>)>>), N_a),
+    ECall(N_union, <<Var(N_xs), EList(<<Var(N_n), EInt(9)>>)>>),
+    EMap(<<EPair(Var(N_s), Var(N_n)), EPair(Add(Var(N_s), S(<<50>>)), ECall(N_len, <<Var(N_xs)>>))>>),
+    Add(ECall(N_string, <<EList(<<Var(N_n), Var(N_n)>>)>>), Var(N_s)),
+    ECall(N_twice, <<Add(Var(N_n), EInt(1))>>),
+    Add(Add(Var(N_n), ESub(Var(N_xs), EInt(2))), Mul(Var(N_n), EInt(10))),
+    ECall(N_get, <<Var(N_xs), Var(N_n), Neg(EInt(1))>>),
+    If(Gt(ECall(N_len, <<Var(N_s)>>), EInt(1)), ESub(Var(N_xs), EInt(0)), Var(N_n)),
+    ECall(N_f, <<Var(N_xs), Var(N_xs)>>),
+    Gt(ECall(N_minus, <<ECall(N_strtotime, <<S(<<50,48,50,49,45,48,51,45,48,52,32,48,53,58,48,54,58,48,55>>)>>), Var(N_tm)>>), Var(N_n)),
+    ECall(N_len, <<ECall(N_string, <<ECall(N_strtotime, <<S(<<50,48,50,49,45,48,51,45,48,52,32,48,53,58,48,54,58,48,55,32,69,117,114,111,112,101,47,80,97,114,105,115>>)>>)>>)>>),
+    ESub(Var(N_xs), Var(N_n)), Add(Var(N_n), Var(N_s))>>
+\* goroutine g's own values of n, s, xs
+ConcOv(g) == <<BindV(N_n, VNum(NInt(g))), BindV(N_s, VStr(<<115, 48 + (g % 10)>>)),
+               BindV(N_xs, IList(TList(TNum), <<VNum(NInt(g)), VNum(NInt(g + 1)), VNum(NInt(10 * g))>>))>>
+
 (* ------------------------------------------------------------------ C05: registration orders *)
 GArgs == <<Var(N_n), Var(N_s), Var(N_xs), Var(N_ss), Var(N_ys), EList(<<>>), EList(<<EInt(1)>>), Var(N_ob), Var(N_m), Var(N_mx),
            EInt(1), S(<<97>>), EList(<<Var(N_xs)>>)>>
